@@ -878,3 +878,55 @@ def truthiness_rule(ctx, rule: str, shorts: Sequence[str], params: Sequence[str]
         if not hits:
             ctx.rep.holds(rule, f"{f.qualname}/no-truthiness[{','.join(params)}]", "the parameter is only compared with None / type-tested", where=f.where())
     ctx.rep.floor(rule, "functions examined for truthiness tests", n, len(shorts))
+
+
+def empty_partial_rule(ctx, rule: str, shorts: Sequence[str], what: str) -> None:
+    """Operations that are undefined for an empty sequence - max() / min() without a default, next() without a default,
+    functools.reduce() without an initial value, x[0] / x[-1] - applied to `self` (a worklist is a list and may be empty) or to
+    something computed from it: for the empty worklist they raise before anything else happens."""
+    n = 0
+    for short in shorts:
+        cands = [g for g in ctx.prog.all_functions() if g.short == short]
+        if not cands:
+            ctx.rep.inconclusive(rule, short, "function not found")
+            continue
+        f = cands[0]
+        if not f.params:
+            continue
+        selfn = f.params[0]
+        ctx.rep.touch(f)
+        n += 1
+
+        def from_self(e) -> bool:
+            for x in ast.walk(e):
+                if isinstance(x, ast.Name) and x.id == selfn:
+                    par_attr = False
+                    for y in ast.walk(e):
+                        if isinstance(y, ast.Attribute) and y.value is x:
+                            par_attr = True
+                    if not par_attr:
+                        return True
+            return False
+
+        hits = []
+        for x in own_walk(f.node):
+            if isinstance(x, ast.Call):
+                fn = call_fname(x)
+                kws = {k.arg for k in x.keywords}
+                if fn in ("max", "min") and len(x.args) == 1 and "default" not in kws and from_self(x.args[0]):
+                    hits.append((x, f"{fn}() of an empty sequence raises ValueError"))
+                elif fn == "next" and len(x.args) == 1 and from_self(x.args[0]):
+                    hits.append((x, "next() of an exhausted iterator raises StopIteration"))
+                elif fn == "reduce" and len(x.args) == 2 and from_self(x.args[1]):
+                    hits.append((x, "reduce() of an empty sequence without an initial value raises TypeError"))
+            elif isinstance(x, ast.Subscript) and isinstance(x.ctx, ast.Load) and isinstance(x.value, ast.Name) and x.value.id == selfn:
+                k = x.slice
+                if isinstance(k, ast.UnaryOp) and isinstance(k.op, ast.USub):
+                    k = k.operand
+                if isinstance(k, ast.Constant) and isinstance(k.value, int):
+                    hits.append((x, "indexing an empty worklist raises IndexError"))
+        for x, why in hits:
+            ctx.rep.refuted(rule, f"{f.qualname}/empty[{show(x)[:30]}]", f"`{show(x)[:60]}`: {why} - {what}", where=f.where(x))
+        if not hits:
+            ctx.rep.holds(rule, f"{f.qualname}/empty-safe", "nothing that is undefined for an empty worklist is applied to it", where=f.where())
+    ctx.rep.floor(rule, "functions examined for operations undefined on an empty worklist", n, len(shorts))
